@@ -312,7 +312,7 @@ func toTensors(ts []*tensor.Dense) []tensor.Tensor {
 }
 
 var c10DTs = []DT{dtInt8, dtBool, dtInt16, dtF32, dtF64, dtC128, dtStr}
-var c10Layouts = []string{"contig", "lazyT", "sliced", "stepsliced", "materialized", "physT"}
+var c10Layouts = []string{"contig", "lazyT", "sliced", "stepsliced", "materialized", "physT", "Tsliced", "slicedT", "leadsliced", "picked", "pickslice"}
 
 func genC10(rt *rapid.T, op string, d DT, unfit bool) *C10Case {
 	c := &C10Case{Op: op, DT: d.Name, Via: rapid.SampledFrom([]string{"method", "pkg"}).Draw(rt, "via")}
